@@ -19,6 +19,7 @@ BOUNDS_FAMILIES = {
     "neg": [(-3, 0), (-2, -1), (-1, 3), (-2, 3), (-1, 0), (-2, 0)],
     "wide": [(-32768, 32767), (0, 1000), (-5, 3), (0, 32767), (-32768, 0)],
     "degenerate": [(0, 0), (1, 1), (2, 2), (0, 1), (-1, -1)],
+    "medium": [(0, 65), (0, 100), (-70, 70), (0, 200), (-130, 5), (0, 300), (1, 129)],
 }
 FAULT_KINDS = ["abort-arg", "abort-callback", "solver-raise", "solver-none", "solver-lazy", "solver-status",
                "solver-vectype", "defer", "abandon"]
@@ -82,6 +83,8 @@ class Gen:
         self.fired = {}       # fault kind -> count (as generated into the program)
         self.events = []      # abstract event log for coverage signature
         self.skipped = {}
+        self.last_keys = {}
+        self.force_solver = None
         self.hits = {}
         self.dead = set()     # handles on which the built-in solver hung: never handed to it again
         self.leafb = {}
@@ -257,7 +260,10 @@ class Gen:
         if t == "AtLeast":
             lo = sum(self.leafb[c[1]][0] if c[0] in ("var", "str") else 0 for c in ch)
             hi = sum(self.leafb[c[1]][1] if c[0] in ("var", "str") else 1 for c in ch)
-            lo, hi = max(lo, -40), min(hi, 40)
+            if rng.random() < 0.7:
+                lo, hi = max(lo, -40), min(hi, 40)
+            else:
+                lo, hi = max(lo, -40000), min(hi, 40000)
             sign = rng.choice([None, None, 1, -1])
             if sign == -1:
                 value = rng.randint(-hi - 1, -lo + 1)
@@ -266,7 +272,7 @@ class Gen:
             return ["AtLeast", value, ch, ident, sign]
         if t == "AtMost":
             hi = sum(self.leafb[c[1]][1] if c[0] in ("var", "str") else 1 for c in ch)
-            return ["AtMost", rng.randint(0, max(0, min(hi, 40))), ch, ident]
+            return ["AtMost", rng.randint(0, max(0, min(hi, 40 if rng.random() < 0.7 else 40000))), ch, ident]
         if t in ("All", "Any", "Xor", "ExactlyOne", "XNor"):
             return [t, ch, ident]
         if t == "Imply":
@@ -371,11 +377,15 @@ class Gen:
             return None
         rec = copy.deepcopy(rec)
         nodes = [n for n in R.walk(rec)]
-        how = rng.choice(["bounds", "bounds", "default", "class"])
+        how = rng.choice(["bounds", "bounds", "bounds", "default", "class"])
         done = False
         if how == "bounds":
             cands = [n for n in nodes if n[0] in ("var", "str")]
             rng.shuffle(cands)
+            top_level = {repr(c) for c in R.children(rec)}
+            # nested leaves first: a changed bound of a direct child of the top node changes equation_bounds,
+            # i.e. is *seen* by __eq__ and is no twin in the cache-identity sense
+            cands.sort(key=lambda n: repr(n) in top_level)
             for n in cands:
                 lo, hi = (0, 1) if n[0] == "str" else (n[2], n[3])
                 alts = []
@@ -524,6 +534,17 @@ class Gen:
         ids = sorted(i for i in inf["leaves"] if isinstance(i, str)) + sorted(inf["comps"])
         k = rng.randint(0, min(4, len(ids)))
         chosen = rng.sample(ids, k) if k else []
+        # same id set as an earlier request on this (or a related) object, weights re-drawn / re-ranked:
+        # a memo keyed by ids only would replay the earlier answer
+        prev = None
+        for o in [h] + self.related(h):
+            if self.last_keys.get(o):
+                prev = self.last_keys[o]
+                break
+        if prev and rng.random() < 0.35:
+            chosen = [i for i in prev if i in ids]
+        if chosen:
+            self.last_keys[h] = list(chosen)
         d = []
         for i in chosen:
             w = rng.choice([-3, -2, -1, 1, 1, 2, 3, 5] + ([0] if allow_zero else []))
@@ -536,8 +557,12 @@ class Gen:
         rng = self.rng
         inf = self.handles[h]["info"]
         F = self.p["fault"]
+        if self.force_solver == "builtin" and allow_builtin and h not in self.dead and inf["box"] <= 4096:
+            return None
+        if isinstance(self.force_solver, dict):
+            return dict(self.force_solver)
         if allow_builtin and h not in self.dead and self.handles[h].get("base") not in self.dead \
-                and inf["bool"] and inf["box"] <= 4096 and rng.random() < self.p["builtin_solver_prob"]:
+                and inf["box"] <= 4096 and rng.random() < self.p["builtin_solver_prob"]:
             return None
         modes = ["position", "ones", "lower"]
         if inf["box"] <= self.max_box:
@@ -727,7 +752,13 @@ def gen_c09(rng, oracle, run_index, tier="quick"):
     if pol.endswith("+cid"):
         p["compound_key_prob"] = max(p["compound_key_prob"], 0.25)
         p["explicit_id_prob"] = max(p["explicit_id_prob"], 0.5)
+    if rel == "twin":
+        p["int_leaf_prob"] = max(p["int_leaf_prob"], 0.5)
+        p["bounds_family"] = rng.choice(["twin", "small", "neg"])
+        p["depth"] = max(p["depth"], 2)
     g = Gen(rng, p, oracle)
+    pair_solver = rng.choice(["builtin", "builtin", {"mode": "exact"}, None])
+    echo_prob = rng.choice([0.0, 0.1, 0.25])
     # ---- setup population
     first = g.new_model(want_cfg=True if need_cfg else None)
     partner = first
@@ -752,6 +783,7 @@ def gen_c09(rng, oracle, run_index, tier="quick"):
         else:
             g.new_model()
     nops = p["nops"]
+    pol_op = None
     pol_at = rng.randint(0, max(0, nops // 2))
     obs_at = rng.randint(pol_at + 1, nops)
     done_pol = done_obs = False
@@ -789,7 +821,16 @@ def gen_c09(rng, oracle, run_index, tier="quick"):
                 p["compound_key_prob"] = 1.0
             if what.endswith("+abort"):
                 p["fault"]["abort-arg"] = True
+            if m in ("solve", "select"):
+                g.force_solver = pair_solver   # polluter and observer talk to the same kind of solver
             op, tags = g.op_for(h, m)
+            g.force_solver = None
+            if role == "obs" and pol.split("+")[0] == obs and rel in ("twin", "same", "alias") and pol_op is not None \
+                    and rng.random() < 0.5 and pol_op["m"] == m:
+                # the very same request on the partner: a cache keyed by weak identity replays the first answer
+                op = _retarget(g, pol_op, h)
+            if role == "pol":
+                pol_op = op
             if what.endswith("+abort") and "abort-arg" not in tags and op.get("a", {}).get("i"):
                 items = op["a"]["i"]
                 items[rng.randrange(len(items))][1] = rng.choice([["bad", "x"], ["t", 1, 0]])
@@ -812,6 +853,17 @@ def gen_c09(rng, oracle, run_index, tier="quick"):
             continue
         g.events.append((op["m"], _rel_tag(g, op["h"], first), tuple(sorted(tags))))
         n += 1
+        if op["op"] == "call" and rng.random() < echo_prob:
+            # echo: the identical request on a near-twin / alias / the same object
+            rel_h = [o for o in g.related(op["h"]) if g.handles[o]["kind"] == g.handles[op["h"]]["kind"]]
+            tgt = rng.choice(rel_h) if rel_h and rng.random() < 0.7 else op["h"]
+            e = _retarget(g, op, tgt)
+            before = len(g.ops)
+            g.emit(e, {"base": e["h"]} if e.get("out") and e["m"] in ("assume", "reduce", "negate", "add", "json_rt", "b64_rt") else None)
+            if len(g.ops) > before:
+                g.events.append((e["m"], _rel_tag(g, e["h"], first), ("echo",)))
+                g.hit("echo-same-request-on-" + ("same-object" if tgt == op["h"] else "related-object"))
+                n += 1
         if rng.random() < 0.08:
             g.emit({"op": "audit"})
             g.events.append(("audit", "-", ()))
@@ -822,6 +874,14 @@ def gen_c09(rng, oracle, run_index, tier="quick"):
     meta = {"profile": {k: v for k, v in p.items()}, "triple": [pol, obs, rel], "fired": g.fired,
             "events": g.events, "skipped": g.skipped, "hits": g.hits}
     return g.ops, g.refs, meta
+
+
+def _retarget(g, op, h):
+    e = copy.deepcopy(op)
+    e["h"] = h
+    if e.get("out"):
+        e["out"] = g.fresh("it" if e.get("consume") == "defer" else "h")
+    return e
 
 
 def _rel_tag(g, h, first):
